@@ -96,7 +96,7 @@ func (f *Divide) Call(s *slip.Scope, args slip.List, depth int) (quot slip.Objec
 					if (*big.Rat)(td).Sign() == 0 {
 						slip.DivisionByZeroPanic(s, depth, slip.Symbol("/"), args, "divide by zero")
 					}
-					quot = (*slip.Ratio)((*big.Rat)(td).Inv((*big.Rat)(td)))
+					quot = (*slip.Ratio)(new(big.Rat).Inv((*big.Rat)(td)))
 				case slip.Complex:
 					quot = slip.Complex(complex(1, 0) / complex128(td))
 				}
@@ -131,10 +131,8 @@ func (f *Divide) Call(s *slip.Scope, args slip.List, depth int) (quot slip.Objec
 				slip.DivisionByZeroPanic(s, depth, slip.Symbol("/"), args, "divide by zero")
 			}
 			syncFloatPrec(ta, quot.(*slip.LongFloat))
-			quot = (*slip.LongFloat)(((*big.Float)(quot.(*slip.LongFloat))).Quo(
-				(*big.Float)(quot.(*slip.LongFloat)),
-				(*big.Float)(ta)),
-			)
+			tq := (*big.Float)(quot.(*slip.LongFloat))
+			quot = (*slip.LongFloat)(new(big.Float).SetMode(tq.Mode()).Quo(tq, (*big.Float)(ta)))
 		case *slip.Bignum:
 			if (*big.Int)(ta).Sign() == 0 {
 				slip.DivisionByZeroPanic(s, depth, slip.Symbol("/"), args, "divide by zero")
@@ -152,7 +150,7 @@ func (f *Divide) Call(s *slip.Scope, args slip.List, depth int) (quot slip.Objec
 			if (*big.Rat)(ta).Sign() == 0 {
 				slip.DivisionByZeroPanic(s, depth, slip.Symbol("/"), args, "divide by zero")
 			}
-			quot = (*slip.Ratio)(((*big.Rat)(quot.(*slip.Ratio))).Quo((*big.Rat)(quot.(*slip.Ratio)), (*big.Rat)(ta)))
+			quot = (*slip.Ratio)(new(big.Rat).Quo((*big.Rat)(quot.(*slip.Ratio)), (*big.Rat)(ta)))
 		case slip.Complex:
 			quot = slip.Complex(complex128(quot.(slip.Complex)) / complex128(ta))
 		}
